@@ -33,7 +33,7 @@ m = dict(
                source_commits=['5a411bd', '7bc0279', '75b1668'], add_only=True),
     engines=[dict(name='rocq-machine', path='/verif/coq', serves_properties=sorted(titles), kind_free_text='Rocq (Coq 8.16.1) development: generated leaf code + hand-written machine model + theorems; extracted model compared with the real crate by harness/')],
     checks=checks,
-    notes='Genuine defects repaired in /repo by fix: commits 2464e7b (F1), f652d88 (F2), 0dbd7e5 (F3); known findings F4 (C08, C09) and F5 (C10) in known_findings.json.',
+    notes='Genuine defects repaired in /repo by fix: commits 2464e7b (F1), f652d88 (F2), 0dbd7e5 (F3), 8b1f0c8 (F6); known findings F4 (C08, C09) and F5 (C10) in known_findings.json.',
     not_applicable=na,
 )
 json.dump(m, open(os.path.join(rcc.VERIF, 'MANIFEST.json'), 'w'), indent=1)
